@@ -1221,10 +1221,17 @@ impl Operator for FilterOperator {
                 continue; // Skip entire chunk - zone map proves no matches
             }
 
-            // Apply predicate to create selection vector
-            let count = chunk.total_row_count();
-            let selection =
-                SelectionVector::from_predicate(count, |row| self.predicate.evaluate(&chunk, row));
+            // Apply predicate to create selection vector. Rows that an operator below
+            // already filtered out (the chunk's current selection) must stay out.
+            let selection = match chunk.selection() {
+                Some(current) => current.filter(|row| self.predicate.evaluate(&chunk, row)),
+                None => {
+                    let count = chunk.total_row_count();
+                    SelectionVector::from_predicate(count, |row| {
+                        self.predicate.evaluate(&chunk, row)
+                    })
+                }
+            };
 
             // If nothing passes, skip to next chunk
             if selection.is_empty() {
